@@ -119,6 +119,8 @@ def mk_contests(spec, tests=None):
         kw = dict(u=u, N=ncards, t=0.5)
         if kind == "alpha_shrink":
             tst = NonnegMean(test=NonnegMean.alpha_mart, estim=NonnegMean.shrink_trunc, eta=(0.5 + u) / 2, **kw)
+        elif kind == "alpha_shrink_f":   # the estimate uses the running standard deviation (f > 0)
+            tst = NonnegMean(test=NonnegMean.alpha_mart, estim=NonnegMean.shrink_trunc, eta=(0.5 + u) / 2, f=0.5, d=10, **kw)
         elif kind == "alpha_fixed":
             tst = NonnegMean(test=NonnegMean.alpha_mart, estim=NonnegMean.fixed_alternative_mean, eta=(0.5 + u) / 2, **kw)
         elif kind == "alpha_optcomp":
@@ -205,7 +207,7 @@ def gen_spec(rng, n=None, m=None, ties=False, nums=None, styles=None, plain=Fals
                              ("POLLING", False), ("ONEAUDIT", False)])) for _ in range(m)],
         "risk": [rng.choice([F(1, 20), F(1, 10), F(1, 4), F(1, 2), F(3, 4)]) for _ in range(m)],
         "margin": [rng.choice([F(1, 2), F(1, 4), F(1, 8), F(3, 4)]) for _ in range(m)],
-        "tests": [rng.choice(["alpha_shrink", "alpha_shrink", "alpha_fixed", "alpha_optcomp", "bet_agrapa", "bet_fixed", "kw_last"])
+        "tests": [rng.choice(["alpha_shrink", "alpha_shrink_f", "alpha_fixed", "alpha_optcomp", "bet_agrapa", "bet_fixed", "kw_last"])
                   for _ in range(m)],
         "assorter": [rng.choice(["plurality", "table"]) for _ in range(m)],
         "thr0": [None] * m, "proved0": [False] * m,
@@ -419,6 +421,28 @@ def gen_history(rng, valid=True):
     return {"spec": spec, "sizes": sizes, "modes": modes, "valid": valid}
 
 
+def gen_long_history(rng):
+    """One or two contests on 30-70 cards, 2-4 rounds of growing samples, manual records that often disagree, tests whose
+    bets / estimates use running means and variances: for the p-value clauses of C10 (oracle only, no Coq case)."""
+    n, m = rng.randint(30, 70), rng.choice([1, 1, 2])
+    dens = rng.choice([0.6, 0.8, 1.0])
+    styles = [[c for c in range(m) if rng.random() < dens] for _ in range(n)]
+    spec = gen_spec(rng, n=n, m=m, styles=styles, plain=True)
+    spec["cfg"] = [rng.choice([("CARD_COMPARISON", True), ("ONEAUDIT", True)] + ([("POLLING", True), ("POLLING", False)] if m == 1 else []))
+                   for _ in range(m)]
+    spec["tests"] = [rng.choice(["bet_agrapa", "alpha_shrink_f", "alpha_shrink", "bet_agrapa", "alpha_optcomp"]) for _ in range(m)]
+    spec["assorter"] = [rng.choice(["plurality", "table"]) for _ in range(m)]
+    spec["mvr_agree"] = rng.choice([0.5, 0.7, 0.9])
+    spec["phantom"] = [rng.random() < 0.05 for _ in range(n)]
+    cnt = counts(spec)
+    R = rng.randint(2, 4)
+    sizes = [[rng.randint(min(3, c), max(min(3, c), c // 2)) for c in cnt]]
+    for _ in range(R - 1):
+        sizes.append([rng.randint(k, c) for k, c in zip(sizes[-1], cnt)])
+    return {"spec": spec, "sizes": sizes, "modes": [rng.random() < 0.5 for _ in range(R)], "valid": True,
+            "seeds": [rng.randint(0, 10 ** 9) for _ in range(3)]}
+
+
 def run_history(hist, modes=None, votes_seed=0, mvr_seed=0, shuffle_seed=0, tests=None):
     """Run the real code through the rounds on fresh objects.  Returns list of per-round dicts (stops after an exception
     in consistent_sampling or set_p_values) plus the per-card f/g tables."""
@@ -521,7 +545,7 @@ def run_history(hist, modes=None, votes_seed=0, mvr_seed=0, shuffle_seed=0, test
         if stop:
             rounds.pop()
             break
-    return {"rounds": rounds, "f": ftab, "g": gtab}
+    return {"rounds": rounds, "f": ftab, "g": gtab, "asns": asns}
 
 
 def hround_lit(r):
